@@ -510,4 +510,3 @@ func (x *Exec) evalComposite(n *ast.CompositeLit, st *St, fr *Frame, addr bool, 
 		oos("composite literal of unsupported type %s", ty)
 	}
 }
-
